@@ -40,6 +40,11 @@ def run(chk, tier):
                      ('R7', 'one flow position per slot that occupied a time-to-live', 8)):
         chk.rule(r, d, floor=fl)
 
+    # "never exceeds the configured maximum": the cap compared in R4 is the state's max_flows, which is the tracer's configured value only if every
+    # State is built from the parameter of the same name, in Tracer::new and in clear (C20.O6, imported)
+    from ..report import run_sub
+    run_sub(chk, 'c20', 'C20.', {'O6'})
+
     # ---- R1 ---------------------------------------------------------------------------------------------
     vec_mut = re.compile(r'alloc::vec::Vec::<T, A>::(\w+)$|core::slice::<impl \[T\]>::(sort\w*|swap|reverse|rotate\w*)$')
     hits = []
